@@ -170,3 +170,12 @@ META["C14"] = {
     "note": "Keyed resources use small hand-written adapters (hail, vending stock) or are listed as not driven (publication: see C20); composite servers that update in several steps (open/close) may show intermediate aggregates; tolerances are handled conservatively (must-appear only beyond 1.0 / 2 s or a non-float difference); one known finding (no initial message from PullPositions on an empty open/close device).",
     "technique": "descriptor-driven generic stateful property testing (rapid) over servers discovered from the source tree, through the full in-process gRPC stack",
 }
+META["C11"] = {
+    "text": ("Workload fuzzing under the Go race detector: rapid draws, per goroutine, a plan of operations over every concurrently usable type (Value, Collection with generated ids/CAS/interceptors/"
+             "include predicates, the event bus and DropExcess, a router with factory and wrapped clients, a wrapped client with all four call shapes and mid-stream cancels, group execution with "
+             "every strategy, and six trait models plus the electric server with open Pull streams); 4-16 goroutines run the plans simultaneously while consumers read every field of every message "
+             "they receive, so a late write to a published message is a detectable race. The binaries are built with -race; every report is reduced to its pair of innermost sc-golang frames and "
+             "compared with the listed known findings; anything unlisted is a violation with the race report as replay material."),
+    "note": "Only executed interleavings are judged (no report is not proof of absence); harness callbacks only read; operations that panic under contention are not judged here.",
+    "technique": "generated concurrent workloads (rapid) executed under the Go race detector (-race), reports classified by frame pair",
+}
